@@ -13,7 +13,7 @@ from pyvc.contracts import contract, Contract, ProducerContract, YieldSpec, T, m
 from pyvc.loops import LoopSpec
 from pyvc.sval import SBytes, SStr, SOpt, ExtObj, ORef, MRef, Rec, fresh, iv, to_real, BYTES, R, B, I, Str
 from pyvc import sval, extworld
-from contracts.world import world, sock_is_none, wire_since
+from contracts.world import world, sock_is_none, wire_since, install_flag_monitor
 from contracts.session_misc import opt
 from contracts.session_gen import event_obj, is_event
 from contracts.session_send import close_frame_facts, close_payload
@@ -173,6 +173,7 @@ class OnDisconnect(Contract):
     websocket is marked closed, not closing; never raises"""
     def setup(self, ip, v):
         W = world(ip, session='opt')
+        install_flag_monitor(ip, W)
         return dict(self=W.ws)
 
     def requires(self, ip, a):
@@ -232,6 +233,7 @@ class OnClose(ProducerContract):
 
     def setup(self, ip, v):
         W = world(ip, session='some')
+        install_flag_monitor(ip, W)
         return dict(self=W.ws, message=close_msg(ip, 'int' if v == 'code' else 'none'))
 
     def requires(self, ip, a):
